@@ -12,7 +12,8 @@ CSTD  = -std=gnu99 -w
 SAN   = -fsanitize=address,undefined -fno-sanitize-recover=undefined -fno-omit-frame-pointer
 FLAGS_asan = -O1 -g $(SAN)
 FLAGS_fuzz = -O1 -g $(SAN) -fsanitize=fuzzer-no-link
-FLAGS_cost = -O1 -g -fsanitize-coverage=trace-pc-guard
+# -fno-builtin: memcpy/memchr/strlen stay calls, so that the --wrap counters of checks/c08.cpp see the bytes they touch
+FLAGS_cost = -O1 -g -fsanitize-coverage=trace-pc-guard -fno-builtin
 FLAGS_tsan = -O1 -g -fsanitize=thread
 FLAGS_plain = -O2 -g
 
